@@ -73,7 +73,7 @@ def parseFault (s : String) : Option (Prog × Nat × Outcome) :=
       | "exit" => some (Status.exit n)
       | "sig" => if n = 0 then none else some (Status.signal (n - 1))
       | _ => none
-    some (p, k, ⟨st, if w = "w" then .junk else if w = "r" then .removed else .untouched⟩)
+    some (p, k, ⟨st, if w = "w" then .junk else if w = "r" then .removed else if w = "c" then .complete else .untouched⟩)
   | _ => none
 
 def parseFile (s : String) : Option (String × Content) :=
@@ -112,7 +112,9 @@ def showProg : Prog → String | .cc1 => "cc1" | .as => "as" | .ld => "ld"
 def showStatus : Status → String
   | .exit k => s!"exit:{k % 256}"
   | .signal n => s!"sig:{n % 127 + 1}"
-def showErr : DrvErr → String | .multiO => "multi-o" | .unknownExt => "unknown-ext" | .noInput => "no-input"
+def showErr : DrvErr → String
+  | .multiO => "multi-o" | .unknownExt => "unknown-ext" | .noInput => "no-input"
+  | .usage => "usage" | .unknownArg => "unknown-arg" | .unknownX => "unknown-x"
 def showOpt : Option String → String | some p => p | none => "-"
 
 def showEvent : Event String → String
@@ -127,6 +129,7 @@ def showEvent : Event String → String
 
 def showCls : Cls → String
   | .orig => "orig" | .empty => "empty" | .pp => "pp" | .asm => "asm" | .obj => "obj" | .exe => "exe" | .junk => "junk"
+  | .deps => "deps"
 
 def insertSorted (n : Nat) : List Nat → List Nat
   | [] => [n]
